@@ -126,5 +126,27 @@ def evalTerms (nA nB nmu : Nat) (ts : Array (UTerm β)) (CA CB : Nat → Nat →
     let i := (t.na * nB + t.nb) * nmu + t.mu
     out.setIfInBounds i (out.getD i 0 + t.value CA CB radials SA SB)) (Array.replicate (nA * nB * nmu) 0)
 
+/-- the generator's expansion of one class (src/generate.cpp, `generate_lists` with unrolling): one term for every
+Cartesian pair (na, nb), binomial shift (a, b), parity-allowed (lam1, lam2) that passes the generator's test
+`kept a b lam1 lam2` (its `fabs(ang) > 1e-15`), and every (mu, mu1, mu2), in the generator's loop order; the coefficient
+is `prefac · omega(a; lam, mu; lam1, mu1) · omega(b; lam, mu; lam2, mu2)` -/
+def unroll (omega : Nat → Nat → Nat → Nat → Nat → Nat → Nat → β) (prefac : β)
+    (kept : Nat × Nat × Nat → Nat × Nat × Nat → Nat → Nat → Bool) (lam LA LB : Nat) : List (UTerm β) :=
+  (cartList LA).zipIdx.flatMap fun (ca, na) =>
+    (cartList LB).zipIdx.flatMap fun (cb, nb) =>
+      (subIdx ca).flatMap fun a =>
+        (subIdx cb).flatMap fun b =>
+          let N := tsum a + tsum b
+          (List.range (lam + tsum a + 1)).flatMap fun lam1 =>
+            (parityRange (lam + tsum b) (lam1 + N)).flatMap fun lam2 =>
+              if kept a b lam1 lam2 then
+                (List.range (2 * lam + 1)).flatMap fun mi =>
+                  (List.range (2 * lam1 + 1)).flatMap fun m1 =>
+                    (List.range (2 * lam2 + 1)).map fun m2 =>
+                      ({ na := na, nb := nb, mu := mi,
+                         coef := prefac * omega a.1 a.2.1 a.2.2 lam mi lam1 m1 * omega b.1 b.2.1 b.2.2 lam mi lam2 m2,
+                         ca := a, cb := b, rad := (N, lam1, lam2), sa := (lam1, m1), sb := (lam2, m2) } : UTerm β)
+              else []
+
 end
 end Ecpint.Contraction
